@@ -163,59 +163,71 @@ def retScan (tok0 : Str) : List Str → Nat → RetScan → RetScan
       else retScan tok0 ls (idx + 1) { st with acc := st.acc ++ [l] }
     else retScan tok0 ls (idx + 1) st
 
-/-- `_return_parse_phase_numpydoc_and_google(return_tokens, scanned, stacker, style)` -/
-def returnPhase (style : GNStyle) (s : ScanSt) : R ScanSt :=
-  let s := match retIdx (retTokLines style).reverse s.stacker with
-    | some i => { s with rets := (s.stacker.drop (i + 1)).map Elem.l, stacker := s.stacker.take (i - 1) }
-    | none => s
-  let aft := s.afterward.getD []
-  if s.rets.isEmpty && aft.length > 0 then
-    let rs := retScan ((retTokLines style).headD []) aft 0 {}
-    match rs.fst with
+/-- first half of `_return_parse_phase_numpydoc_and_google`: the return token found among the units of `stacker` -/
+def returnStep1 (style : GNStyle) (s : ScanSt) : ScanSt :=
+  match retIdx (retTokLines style).reverse s.stacker with
+  | some i => { s with rets := (s.stacker.drop (i + 1)).map Elem.l, stacker := s.stacker.take (i - 1) }
+  | none => s
+
+/-- second half: the return token found among the lines of `scanned["scanned_afterward"]` -/
+def returnStep2 (style : GNStyle) (s : ScanSt) : R ScanSt :=
+  if s.rets.isEmpty && (s.afterward.getD []).length > 0 then
+    match (retScan ((retTokLines style).headD []) (s.afterward.getD []) 0 {}).fst with
     | none => .ok s
     | some f =>
       -- NumPy: `scanned["Returns"]` does not exist (the key is `"Returns\n-------"`)
       if style == .numpydoc then .raises "KeyError"
       else
-        let aft' := aft.take f ++ (match rs.snd with | some j => aft.drop j | none => [])
-        let rets := [Elem.s (join ['\n'] rs.acc)]
-        if aft'.all (fun l => (strip l).isEmpty) then .ok { s with rets := rets, afterward := none }
-        else .ok { s with rets := rets, afterward := some aft' }
+        let rs := retScan ((retTokLines style).headD []) (s.afterward.getD []) 0 {}
+        let aft' := (s.afterward.getD []).take f ++ (match rs.snd with | some j => (s.afterward.getD []).drop j | none => [])
+        .ok { s with rets := [Elem.s (join ['\n'] rs.acc)],
+                     afterward := if aft'.all (fun l => (strip l).isEmpty) then none else some aft' }
   else .ok s
+
+/-- `_return_parse_phase_numpydoc_and_google(return_tokens, scanned, stacker, style)` -/
+def returnPhase (style : GNStyle) (s : ScanSt) : R ScanSt := returnStep2 style (returnStep1 style s)
+
+/-- the state after the loop over the lines, and the last value of the loop variable `line` -/
+def afterLoop (style : GNStyle) (isArg : Bool) (lines : List Str) : ScanSt × Option Str :=
+  match scanLines (match lines with | [] => 0 | l :: _ => indentOf l) lines [] with
+  | (stacker, some (l, rest)) => (atBreak style isArg stacker rest, some l)
+  | (stacker, none) => ({ stacker := stacker }, lines.getLast?)
+
+/-- `if line is not None and (not stacker or not stacker[-1] or stacker[-1][0] != line)`: the line goes to the front of
+    `scanned["scanned_afterward"]` -/
+def copyLastLine (s : ScanSt) : Option Str → ScanSt
+  | none => s
+  | some line =>
+    let cond := match s.stacker.getLast? with
+      | none => true
+      | some [] => true
+      | some (h :: _) => h != line
+    if cond then { s with afterward := some (line :: s.afterward.getD []) } else s
+
+/-- the end of `_scan_phase_numpydoc_and_google`: split out the return entry, store what is left of `stacker` -/
+def finishScan (style : GNStyle) (isArg : Bool) (doc : Str) (s : ScanSt) : R Scanned :=
+  match (if s.rets.isEmpty then returnPhase style s else .ok s) with
+  | .raises e => .raises e
+  | .outside w => .outside w
+  | .ok s =>
+    let s := if s.stacker.isEmpty then s else setNs isArg s s.stacker
+    .ok { doc := doc, args := s.args, rets := s.rets, afterward := s.afterward }
+
+/-- `location_within(docstring, arg_tokens)`, else `location_within(docstring, return_tokens)` → (start, end, found the arg token) -/
+def locateSection (style : GNStyle) (docstring : Str) : Option (Nat × Nat × Bool) :=
+  match locate docstring (argTok style) with
+  | some (a, b) => some (a, b, true)
+  | none => match locate docstring (retTok style) with
+    | some (a, b) => some (a, b, false)
+    | none => none
 
 /-- `_scan_phase(docstring, style=style)` for the Google / NumPy styles -/
 def scanPhase (style : GNStyle) (docstring : Str) : R Scanned :=
-  let loc : Option (Nat × Nat × Bool) := match locate docstring (argTok style) with
-    | some (a, b) => some (a, b, true)
-    | none => match locate docstring (retTok style) with
-      | some (a, b) => some (a, b, false)
-      | none => none
-  match loc with
+  match locateSection style docstring with
   | none => .ok { doc := docstring }
   | some (st, en, isArg) =>
-    let doc := whiteSpacerScan (docstring.take st)
-    let lines := splitlines (docstring.drop (en + 1))
-    let fi := match lines with | [] => 0 | l :: _ => indentOf l
-    let (stacker, brk) := scanLines fi lines []
-    let (s, lastLine) : ScanSt × Option Str := match brk with
-      | some (l, rest) => (atBreak style isArg stacker rest, some l)
-      | none => ({ stacker := stacker }, lines.getLast?)
-    -- `if line is not None and (not stacker or not stacker[-1] or stacker[-1][0] != line)`
-    let s := match lastLine with
-      | none => s
-      | some line =>
-        let cond := match s.stacker.getLast? with
-          | none => true
-          | some [] => true
-          | some (h :: _) => h != line
-        if cond then { s with afterward := some (line :: s.afterward.getD []) } else s
-    let s' : R ScanSt := if s.rets.isEmpty then returnPhase style s else .ok s
-    match s' with
-    | .raises e => .raises e
-    | .outside w => .outside w
-    | .ok s =>
-      let s := if s.stacker.isEmpty then s else setNs isArg s s.stacker
-      .ok { doc := doc, args := s.args, rets := s.rets, afterward := s.afterward }
+    let al := afterLoop style isArg (splitlines (docstring.drop (en + 1)))
+    finishScan style isArg (whiteSpacerScan (docstring.take st)) (copyLastLine al.1 al.2)
 
 /-! ### values -/
 
@@ -525,9 +537,8 @@ def reprList : List Str → Option Str
 
 def sOr : Str := g!" or "
 
-/-- Google `_parse(scan)` -/
-def googleParse (scan : List Str) : Parsed :=
-  let scan0 := scan.headD []
+/-- Google `_parse(scan)` on a unit `scan0 :: tail` -/
+def googleParse1 (scan0 : Str) (tail : List Str) : Parsed :=
   match find scan0 [':'] with
   | none => .stop
   | some offset =>
@@ -536,7 +547,7 @@ def googleParse (scan : List Str) : Parsed :=
     let name := strip pt.1
     let typ := rstrip (pt.2.1 ++ pt.2.2)
     let end_ := lstrip (scan0.drop (offset + 1))
-    if typ.isEmpty then .cur name { doc := some (strip (join ['\n'] (end_ :: scan.tail))) }
+    if typ.isEmpty then .cur name { doc := some (strip (join ['\n'] (end_ :: tail))) }
     else if !(endsWith typ [')']) then .raises "AssertionError"
     else
       let t := (typ.drop 1).dropLast
@@ -544,15 +555,22 @@ def googleParse (scan : List Str) : Parsed :=
       if end_.length > 3 && startsWith end_ ['{'] && endsWith end_ ['}'] then
         match reprList ((splitOn ((end_.drop 1).dropLast) [',', ' ']).map (fun x => stripChars x ['\''])) with
         | none => .outside "repr of a non-printable string"
-        | some r => .cur name { typ := some (g!"Literal" ++ r), doc := some (strip (join ['\n'] ([] :: scan.tail))) }
-      else .cur name { typ := some t, doc := some (strip (join ['\n'] (end_ :: scan.tail))) }
+        | some r => .cur name { typ := some (g!"Literal" ++ r), doc := some (strip (join ['\n'] ([] :: tail))) }
+      else .cur name { typ := some t, doc := some (strip (join ['\n'] (end_ :: tail))) }
+
+/-- Google `_parse(scan)` (`scan[0]` of an empty unit would be an `IndexError`; the scanner never builds one) -/
+def googleParse : List Str → Parsed
+  | [] => .raises "IndexError"
+  | scan0 :: tail => googleParse1 scan0 tail
 
 /-- NumPy `_parse(scan)` -/
-def numpyParse (scan : List Str) : Parsed :=
-  let pt := partition (scan.headD []) [':']
-  if pt.1.isEmpty then .skip
-  else if pt.2.2.isEmpty then .cur (strip pt.1) {}
-  else .cur (strip pt.1) { typ := some (lstrip pt.2.2), doc := some (join ['\n'] (scan.tail.map lstrip)) }
+def numpyParse : List Str → Parsed
+  | [] => .raises "IndexError"
+  | scan0 :: tail =>
+    let pt := partition scan0 [':']
+    if pt.1.isEmpty then .skip
+    else if pt.2.2.isEmpty then .cur (strip pt.1) {}
+    else .cur (strip pt.1) { typ := some (lstrip pt.2.2), doc := some (join ['\n'] (tail.map lstrip)) }
 
 def parseOne : GNStyle → List Str → Parsed
   | .google, scan => googleParse scan
@@ -585,7 +603,7 @@ def foldParams (style : GNStyle) (edd : Bool) : List (List Str) → Bool → Lis
         | .outside w => .outside w
         | .ok p2 => foldParams style edd rest (rd || p1.default.isSome) (dictInsert acc (sntName name) p2)
 
-/-- `elem[0].endswith(":") and elem[0].count(":") == 1` -/
+/-- `elem[0].endswith(":") and elem[0].count(":") == 1` (units are never empty: `scanLines` creates each with one line) -/
 def isAfterwardHead (elem : List Str) : Bool :=
   let h := elem.headD []
   endsWith h [':'] && count1 h ':' == 1
